@@ -209,6 +209,11 @@ theorem exhLsa_contract [IsOrderedAddMonoid K] : LsaContract (K := K) exhLsa :=
 
 end lsa
 
+-- the exhaustive solver on a concrete matrix with an `np.inf` entry (evaluated at ℤ)
+example : exhLsa (α := ℤ) [[some 1, some 2], [some 2, none]] = [(0, 1), (1, 0)] := by decide
+example : exhLsa (α := ℤ) [[some 5, some 1, none], [some 1, some 5, some 2], [none, some 1, some 0]]
+    = [(0, 1), (1, 0), (2, 2)] := by decide
+
 /-! ### 5. the main theorem -/
 
 section main
@@ -370,5 +375,23 @@ example : ∃ (lsa : Mat ℝ → List (Nat × Nat)) (w : ℝ) (rows : _),
   obtain ⟨lsa, hl⟩ := lsaContract_satisfiable (K := ℝ)
   obtain ⟨w, rows, h, -⟩ := wasserstein_eq_spec_real lsa hl [(0, some 1), (0, some 1), (2, some 2), (3, none)] []
   exact ⟨lsa, w, rows, by rw [h]; simp [warned, finitePart]⟩
+
+-- … and with the computable solver the value can be read off: two copies of (0,1) and the diagonal
+-- point (2,2) against the empty diagram cost 1/√2 + 1/√2 + 0
+example : ∃ rows, wasserstein Real.sqrt (Real.cos (Real.pi / 4)) (Real.sin (Real.pi / 4)) exhLsa
+    [(0, some 1), (0, some 1), (2, some 2), (3, none)] [] = .ok ⟨some (2 / Real.sqrt 2), true, false, rows⟩ := by
+  obtain ⟨w, rows, h, hmin⟩ := wasserstein_eq_spec_real exhLsa exhLsa_contract
+    [(0, some 1), (0, some 1), (2, some 2), (3, none)] []
+  have hE : IsEmpty (Idx (finitePart ([] : Dgm ℝ))) := inferInstanceAs (IsEmpty (Fin 0))
+  have hw := (isMinSum_isEmpty_right _ _ _ w).mp hmin
+  have hsum : (∑ i : Fin 3, ((([(0, 1), (0, 1), (2, 2)] : List (ℝ × ℝ)).get i).2
+      - (([(0, 1), (0, 1), (2, 2)] : List (ℝ × ℝ)).get i).1) / Real.sqrt 2) = 2 / Real.sqrt 2 := by
+    rw [Fin.sum_univ_three]
+    show ((1 : ℝ) - 0) / Real.sqrt 2 + (1 - 0) / Real.sqrt 2 + (2 - 2) / Real.sqrt 2 = 2 / Real.sqrt 2
+    ring
+  have hw' : w = 2 / Real.sqrt 2 := hw.trans hsum
+  refine ⟨rows, ?_⟩
+  rw [h, hw']
+  simp [warned, finitePart]
 
 end PersimVerif.C02
